@@ -13,7 +13,7 @@ from vp.flo.engine import all_events
 
 PROPERTY = "C08"
 LEVEL = "exploration"
-PROFILE = {"driver_cmp": True, "aux_share": True, "driver": True, "aux_policy": "clean", "aux_modes": ["plain", "plain", "cond"], "auxes": (0, 3), "frames": (2, 6), "depth": 3,
+PROFILE = {"driver_cmp": True, "aux_share": True, "aux_completes": True, "driver": True, "aux_policy": "clean", "aux_modes": ["plain", "plain", "cond"], "auxes": (0, 3), "frames": (2, 6), "depth": 3,
            "kinds": {"data": 6, "go": 7, "let": 5, "timeout": 1, "repeat": 1, "aux": 4, "auxif": 1, "bid": 1, "done": 1, "fiat": 2},
            "needs": {"cmp": 8, "bool": 1, "elapsed": 1, "recurred": 2, "done": 1, "status": 0, "auxdone": 1}}
 
@@ -39,7 +39,7 @@ def classes(prog, r):
     return out
 
 
-CHECK = ProfileCheck(PROFILE, ["c08", "c06"], nontrivial, classes, directed=__import__("vp.flo.gen", fromlist=["x"]).guard_scenario, directed_share=2)
+CHECK = ProfileCheck(PROFILE, ["c08", "c06"], nontrivial, classes, directed=__import__("vp.flo.gen", fromlist=["x"]).guard_family, directed_share=2)
 RULE = ("Hypothesis-generated guard-heavy programs (let guards, guarded aux first frames, shared original auxes, conditions flipping); "
         "invariants on the recorded history: guards evaluated true before each entry, aux ownership, refused attempts leave no trace; + "
         "reference differential. non-trivial = some frame's guard is evaluated false and the same frame is entered later; distinct = distinct program AST")
